@@ -57,7 +57,7 @@ def families(tier, seed):
                 out.append(dict(name=f'{WHAT} bounded {decl} {mode} n={n or "all"} [{be}] part {part}/{parts}',
                                 run=_part(decl, mode, seed, n, be, part, parts), label='bounded'))
     from contracts import optdiff as _od
-    out.append(dict(name='same results with assert statements stripped (python -O), section C08', run=_od.family('C08'), label='bounded'))
+    out.append(dict(name='same results with assert statements stripped (python -O), section C10', run=_od.family('C10'), label='bounded'))
     return out
 
 
